@@ -1,10 +1,79 @@
 import QR.Model.Release
 import QR.Spec.Release
+import QR.Proofs.Release
 /-
-C20 - the manual-page release hook.  (General theorems under construction.)
+C20 - the manual-page release hook (qrcode/release.py `update_manpage`).
+
+The hook rewrites only the version and date fields of the first well-formed `.TH` header line of doc/qr.1;
+applying it twice is the same as applying it once; it writes nothing for another package name, for an unchanged
+version, or for a page without a well-formed header line.
+
+`Model.updateManpage name ver date page : Option (List Char)` is the model of the code (`none` = nothing written,
+`some text` = the text written); `Spec.expectedManpage` is the property's definition via quote positions.
+All proofs are in QR/Proofs/Release.lean.
 -/
 namespace QR.Props
-open QR QR.Model
+open QR QR.Model QR.Spec
+
+/-- `'"'.join(re.split('"([^"]*)"', line)) == line`: splitting a line at its quoted fields and joining the parts
+with `'"'` again is the identity (so a rewritten line differs from the old one only in the parts assigned to). -/
+theorem C20_split_join (line : List Char) (fuel : Nat) (hf : line.length < fuel) :
+    joinQuote (reSplit fuel line) = line :=
+  Proofs.Release.joinQuote_reSplit line fuel hf
+
+/-- `readlines()` loses nothing: concatenating the lines gives the page back. -/
+theorem C20_readlines_flatten (fuel : Nat) (page : List Char) (hf : page.length < fuel) :
+    (readLines fuel page).flatten = page :=
+  Proofs.Release.readLines_flatten fuel page hf
+
+/-- every line returned by `readlines()` except possibly the last one ends with `'\n'` and contains no other
+`'\n'`. -/
+theorem C20_readlines_nonlast (fuel : Nat) (page : List Char) (i : Nat)
+    (hi : i + 1 < (readLines fuel page).length) :
+    ∃ b, (readLines fuel page)[i] = b ++ ['\n'] ∧ ∀ c ∈ b, c ≠ '\n' :=
+  Proofs.Release.readLines_nonlast fuel page i hi
+
+/-- every line (in particular the last) is non-empty and has no `'\n'` except possibly as its last character. -/
+theorem C20_readlines_any (fuel : Nat) (page : List Char) (i : Nat) (hi : i < (readLines fuel page).length) :
+    (∃ b, (readLines fuel page)[i] = b ++ ['\n'] ∧ ∀ c ∈ b, c ≠ '\n') ∨
+    ((readLines fuel page)[i] ≠ [] ∧ ∀ c ∈ (readLines fuel page)[i], c ≠ '\n') :=
+  Proofs.Release.readLines_last fuel page i hi
+
+/-- Main theorem: the model of the code equals the property's definition.  Only quoted fields 0 (date) and
+1 (version) of the first well-formed header line change, every other line and the rest of that line are kept,
+in order; nothing is written (`none`) exactly when the package name differs, no well-formed header line exists,
+or the version field of the first one already equals `ver`.
+(The hypotheses on `ver` and `date` are not used: the equality holds for arbitrary strings.) -/
+theorem C20_only_header (name ver date page : List Char)
+    (hv : ∀ c ∈ ver, c ≠ '"' ∧ c ≠ '\n') (hd : ∀ c ∈ date, c ≠ '"' ∧ c ≠ '\n') :
+    updateManpage name ver date page = expectedManpage name ver date page :=
+  Proofs.Release.updateManpage_eq_expected name ver date page hv hd
+
+/-- the same without hypotheses on the strings -/
+theorem C20_only_header' (name ver date page : List Char) :
+    updateManpage name ver date page = expectedManpage name ver date page :=
+  Proofs.Release.updateManpage_eq_expected' name ver date page
+
+/-- Definition-free reading of "only the two fields change": whenever something is written, the page has the form
+`pre ++ t0 "f0" t1 "f1" r ++ post` with `t0, f0, t1, f1` free of quotes and `t0` starting with `.TH `, the old
+version field `f1` differs from `ver`, and the text written is `pre ++ t0 "date" t1 "ver" r ++ post`. -/
+theorem C20_only_fields (ver date page page' : List Char)
+    (h : updateManpage "qrcode".toList ver date page = some page') :
+    ∃ pre t0 f0 t1 f1 r post,
+      page = pre ++ (t0 ++ '"' :: (f0 ++ '"' :: (t1 ++ '"' :: (f1 ++ '"' :: r)))) ++ post ∧
+      page' = pre ++ (t0 ++ '"' :: (date ++ '"' :: (t1 ++ '"' :: (ver ++ '"' :: r)))) ++ post ∧
+      f1 ≠ ver ∧ (∀ c ∈ t0, c ≠ '"') ∧ (∀ c ∈ f0, c ≠ '"') ∧ (∀ c ∈ t1, c ≠ '"') ∧ (∀ c ∈ f1, c ≠ '"') ∧
+      t0.take 4 = ".TH ".toList :=
+  Proofs.Release.only_fields_change ver date page page' h
+
+/-- Idempotence: after a successful run, a second run with the same version writes nothing - even on another day
+(`date'` arbitrary).  `ver` and `date` must contain neither `'"'` nor `'\n'`; each of the four conditions is
+necessary (counterexamples in the report). -/
+theorem C20_idempotent (ver date date' page page' : List Char)
+    (hv : ∀ c ∈ ver, c ≠ '"' ∧ c ≠ '\n') (hd : ∀ c ∈ date, c ≠ '"' ∧ c ≠ '\n')
+    (h : updateManpage "qrcode".toList ver date page = some page') :
+    updateManpage "qrcode".toList ver date' page' = none :=
+  Proofs.Release.idempotent ver date date' page page' hv hd h
 
 /-- nothing is written for another package name -/
 theorem C20_other_package (name ver date page : List Char) (h : name ≠ "qrcode".toList) :
@@ -12,5 +81,35 @@ theorem C20_other_package (name ver date page : List Char) (h : name ≠ "qrcode
   unfold updateManpage
   have : (name != "qrcode".toList) = true := by simpa using h
   rw [if_pos this]
+
+/-- nothing is written when no line of the page is a well-formed header line -/
+theorem C20_noop_no_header (name ver date page : List Char)
+    (h : ∀ l ∈ lineSplit (page.length + 1) page, wellFormedHeader l = false) :
+    updateManpage name ver date page = none :=
+  Proofs.Release.noop_no_header name ver date page h
+
+/-- nothing is written when the version field (quoted field 1) of the first well-formed header line
+already equals `ver` -/
+theorem C20_noop_same_version (name ver date page : List Char) (i : Nat)
+    (hi : i < (lineSplit (page.length + 1) page).length)
+    (hwf : wellFormedHeader (lineSplit (page.length + 1) page)[i] = true)
+    (hfirst : ∀ j (hj : j < i), wellFormedHeader ((lineSplit (page.length + 1) page)[j]'(by omega)) = false)
+    (hq : quotedField (lineSplit (page.length + 1) page)[i] 1 = ver) :
+    updateManpage name ver date page = none :=
+  Proofs.Release.noop_same_version name ver date page i hi hwf hfirst hq
+
+/-- the lines used in the two no-op statements are the lines the code reads -/
+theorem C20_lines_agree (fuel : Nat) (page : List Char) : readLines fuel page = lineSplit fuel page :=
+  Proofs.Release.readLines_eq_lineSplit fuel page
+
+/-- non-vacuity: on a concrete page with a malformed `.TH` line, a good one and a later one, exactly the date and
+version of the good one are rewritten, and a second run (another day) writes nothing -/
+example :
+    updateManpage "qrcode".toList "8.0".toList "26 Sep 2026".toList
+      "x\n.TH QR 1 \"only one\"\n.TH QR 1 \"1 Jan 2020\" \"7.0\" \"tool\"\n.TH A \"d\" \"6.0\"".toList
+    = some "x\n.TH QR 1 \"only one\"\n.TH QR 1 \"26 Sep 2026\" \"8.0\" \"tool\"\n.TH A \"d\" \"6.0\"".toList
+    ∧ updateManpage "qrcode".toList "8.0".toList "27 Sep 2026".toList
+      "x\n.TH QR 1 \"only one\"\n.TH QR 1 \"26 Sep 2026\" \"8.0\" \"tool\"\n.TH A \"d\" \"6.0\"".toList = none := by
+  decide
 
 end QR.Props
